@@ -81,6 +81,7 @@ def run_one(patch, pid, expect_violation, with_tests, tier="quick"):
 
 def main(argv):
     with_tests = "--tests" in argv
+    cross = "--cross" in argv         # quiet patches against EVERY property's check (a legal refactor must alarm nobody)
     only = None
     if "--only" in argv:
         only = argv[argv.index("--only") + 1]
@@ -93,6 +94,8 @@ def main(argv):
     for m in sorted(glob.glob(os.path.join(VERIF, "seeded", "*", "meta.json"))):
         meta = json.load(open(m))
         jobs.append((os.path.join(os.path.dirname(m), "patch.diff"), meta["property"].upper(), True))
+    if cross:
+        jobs = [(p, q, False) for (p, pid, expect) in jobs if not expect for q in ("C03", "C05", "C06", "C18", "C20") if q != pid]
     bad = 0
     for p, pid, expect in jobs:
         if ids and pid not in ids:
